@@ -114,14 +114,26 @@ def trace_line(ctrl, param, T, njobs, faults=()):
     return f'sched {int(param)} {T} {njobs} F {fl} E {ev}'.replace('  ', ' ')
 
 
-def make_pair(run, tmp, tag, rng, nb=2, band_masks=False):
-    src, ref = rasters.pair_geometry(rng, 'dyadic', 'auto', max_src=28, margin=(1, 2))
-    while src.w < 12 or src.h < 12:
-        src, ref = rasters.pair_geometry(rng, 'dyadic', 'auto', max_src=28, margin=(1, 2))
+def make_pair(run, tmp, tag, rng, nb=2, band_masks=False, sparse=False):
+    lo, hi = (40, 64) if sparse else (12, 28)
+    src, ref = rasters.pair_geometry(rng, 'dyadic', 'auto', max_src=hi, margin=(1, 2))
+    while src.w < lo or src.h < lo or (sparse and src.px > ref.px):
+        src, ref = rasters.pair_geometry(rng, 'dyadic', 'auto', max_src=hi, margin=(1, 2))
     s = np.array([[[rng.randint(20, 200) for _ in range(src.w)] for _ in range(src.h)] for _ in range(nb)], float)
     r = np.array([[[rng.randint(30, 150) for _ in range(ref.w)] for _ in range(ref.h)] for _ in range(nb)], float)
     sv = np.ones((src.h, src.w), bool)
     sv[rng.randrange(src.h), rng.randrange(src.w)] = False
+    if band_masks and sparse:
+        # partial masking erodes a (kernel + 2) window of processing pixels around every invalid pixel: a few band-specific
+        # single invalid pixels, in different quadrants per band, leave most of the image valid and the bands' masks different
+        sv[:] = True
+        for b in range(nb):
+            for q in range(4):
+                r0 = (q // 2) * (src.h // 2) + rng.randrange(src.h // 8, src.h // 2 - src.h // 8)
+                c0 = (q % 2) * (src.w // 2) + rng.randrange(src.w // 8, src.w // 2 - src.w // 8)
+                if (q + b) % 2 == 0:
+                    s[b, r0, c0] = -9999.0
+        return fusion.write_pair(tmp, tag, src, ref, s, r, sv, None, src_nodata=-9999.0), src, ref
     if band_masks:
         # band-specific nodata regions (numeric nodata): the bands' validity masks differ
         for b in range(nb):
@@ -152,21 +164,25 @@ def run(run: common.Run):
         kernel = (3, 3)
         # every third set: output with an internal mask (nodata null) and band-specific source masks
         variant = k % 3 == 1
-        pair, src, ref = make_pair(run, tmp, f'c04_{k}', rng, band_masks=variant)
+        # every third set: partial masking switched on, with band-specific source masks (shared per-window state between the
+        # bands' blocks would show as a dependence on which band's block runs first)
+        mp = k % 3 == 2
+        mc = dict(mask_partial=True) if mp else None
+        pair, src, ref = make_pair(run, tmp, f'c04_{k}', rng, band_masks=variant or mp, sparse=mp)
         oprof = dict(nodata=None) if variant else None
         proc_ref = src.px <= ref.px
         ph, pw = fusion.proc_window_shape(src, ref, proc_ref)
         hv = rng.choice([2, 3])
         mbm = fusion.block_mem_for(hv, ph, pw, src.px, ref.px, proc_ref)
-        kw = dict(model=model, kernel_shape=kernel, model_config=None, out_profile=oprof)
+        kw = dict(model=model, kernel_shape=kernel, model_config=mc, out_profile=oprof)
         try:
             base = fusion.run_fuse(pair.src_path, pair.ref_path, tmp / f'c04_{k}_base.tif', model=model, kernel_shape=kernel,
-                                   threads=1, max_block_mem=mbm, param=True, out_profile=oprof)
+                                   threads=1, max_block_mem=mbm, param=True, out_profile=oprof, model_config=mc)
         except BlockSizeError:
             hv = 1
             mbm = fusion.block_mem_for(hv, ph, pw, src.px, ref.px, proc_ref)
             base = fusion.run_fuse(pair.src_path, pair.ref_path, tmp / f'c04_{k}_base.tif', model=model, kernel_shape=kernel,
-                                   threads=1, max_block_mem=mbm, param=True, out_profile=oprof)
+                                   threads=1, max_block_mem=mbm, param=True, out_profile=oprof, model_config=mc)
         bsig = result_sig(base)
         with warnings.catch_warnings():
             warnings.simplefilter('ignore')
@@ -176,7 +192,7 @@ def run(run: common.Run):
         # free-running thread counts
         for th in (2, 4, 16):
             res = fusion.run_fuse(pair.src_path, pair.ref_path, tmp / f'c04_{k}_free.tif', model=model, kernel_shape=kernel,
-                                  threads=th, max_block_mem=mbm, param=True, out_profile=oprof)
+                                  threads=th, max_block_mem=mbm, param=True, out_profile=oprof, model_config=mc)
             run.evaluations += 1
             run.hist['free-running runs'] += 1
             if not same(result_sig(res), bsig):
